@@ -272,6 +272,9 @@ class MinErrorFlow():
             
             # Getting the flow value of the edge            
             f_u_v = data[self.flow_attr]
+            if f_u_v != f_u_v or f_u_v in (float("inf"), float("-inf")):
+                utils.logger.error(f"{__name__}: Edge {str((u, v))} has non-finite flow value {f_u_v}.")
+                raise ValueError(f"Edge {str((u, v))} has non-finite flow value {f_u_v}. All flow values must be finite numbers.")
             
             # Encoding the error on the edge (u, v) as the difference between 
             # the flow value of the edge and the sum of the weights of the paths that go through it (pi variables)
